@@ -16,6 +16,7 @@ package files
 import (
 	"archive/zip"
 	"fmt"
+	"github.com/acquirecloud/golibs/errors"
 	"github.com/acquirecloud/golibs/strutil"
 	"io"
 	"os"
@@ -177,6 +178,11 @@ func UnzipToFolder(zipFile, destDir string) error {
 			continue
 		}
 
+		destFile := filepath.Join(destDir, z.Name)
+		if rel, err := filepath.Rel(destDir, destFile); err != nil || rel == ".." || strings.HasPrefix(rel, ".."+string(filepath.Separator)) {
+			return fmt.Errorf("UnzipToFolder: the entry \"%s\" would be written outside of %s: %w", z.Name, destDir, errors.ErrInvalid)
+		}
+
 		partPath, _ := filepath.Split(z.Name)
 		destPath := filepath.Join(destDir, partPath)
 		if !pathChecked[destPath] {
@@ -192,7 +198,6 @@ func UnzipToFolder(zipFile, destDir string) error {
 			return fmt.Errorf("UnzipToFolder: cannot open file \"%s\" in the ziputil archive: %w", z.Name, err)
 		}
 
-		destFile := filepath.Join(destDir, z.Name)
 		out, err := os.Create(destFile)
 		if err != nil {
 			in.Close()
